@@ -4,11 +4,13 @@
 //! start (C06); on the reader side the checks enumerated inputs densely but
 //! call sequences only where a driver had been written for one.
 //!
-//! Handles h0, h1 start on two maps X and Y (values increase with the keys, so
-//! that get_key is defined). Alphabet (30 operations):
+//! Handles h0, h1 start on two maps X and Y of clearly different file length
+//! (values increase with the keys, so
+//! that get_key is defined). Alphabet (32 operations):
 //!   Get(h, p)      get + contains_key of probe p in {"", a, ab, ba}
 //!   Open(h, b)     open the stream slot of h (replacing an open one) with
-//!                  bounds b in {none, ge(a).le(b), gt(a), lt(b)}
+//!                  bounds b in {none, ge(a).le(b), gt(a), lt(b)} or as
+//!                  search(Subsequence("b")).gt("")
 //!   Next(h)        next() on the slot of h (a slot that has ended stays ended)
 //!   Drop(h)        drop the slot of h
 //!   MapData(h)     h.map_data(..) to the bytes of the OTHER map
@@ -20,7 +22,7 @@
 //! and such sequences are not enumerated.
 //!
 //! A wrong answer is attributed to the property of the operation that gave it:
-//! Get -> C02, Open/Next -> C03, Verify -> C08, GetKey -> C16, a failing open / map_data / clone_from -> C10; each of those checks
+//! Get -> C02, Open/Next -> C03 (C04 for the search), Verify -> C08, GetKey -> C16, any panic -> also C20, a failing open / map_data / clone_from -> C10; each of those checks
 //! runs the exploration and reports only its own class.
 
 use std::sync::OnceLock;
@@ -52,6 +54,10 @@ pub enum Class {
     Stream,
     Verify,
     GetKey,
+    /// next() of a stream opened by search(..) (C04)
+    Search,
+    /// every class, but only panics (C20: whatever opens answers without panicking)
+    Panics,
     /// opening, map_data or clone_from itself failed or panicked (C10)
     Reopen,
 }
@@ -64,7 +70,7 @@ pub fn alphabet() -> Vec<Op> {
         }
     }
     for h in 0..2u8 {
-        for b in 0..4u8 {
+        for b in 0..5u8 {
             a.push(Op::Open(h, b));
         }
     }
@@ -85,7 +91,7 @@ const PROBES: [&[u8]; 4] = [b"", b"a", b"ab", b"ba"];
 pub fn contents() -> &'static [(Vec<Kv>, &'static [u8]); 2] {
     static C: OnceLock<[(Vec<Kv>, &'static [u8]); 2]> = OnceLock::new();
     C.get_or_init(|| {
-        let x: Vec<Kv> = vec![(b"".to_vec(), 1), (b"a".to_vec(), 2), (b"ab".to_vec(), 5), (b"b".to_vec(), 7)];
+        let x: Vec<Kv> = vec![(b"".to_vec(), 1), (b"a".to_vec(), 2), (b"ab".to_vec(), 5), (b"b".to_vec(), 7), (b"czzzzzzzzzzzzzzzzzzz".to_vec(), 100)];
         let y: Vec<Kv> = vec![(b"a".to_vec(), 3), (b"b".to_vec(), 4), (b"ba".to_vec(), 9)];
         let bx: &'static [u8] = Box::leak(front::build(Front::RawInsert, DEFAULT_GEOM, &x).expect("build X").into_boxed_slice());
         let by: &'static [u8] = Box::leak(front::build(Front::RawInsert, DEFAULT_GEOM, &y).expect("build Y").into_boxed_slice());
@@ -98,7 +104,29 @@ fn in_bounds(k: &[u8], b: u8) -> bool {
         0 => true,
         1 => k >= &b"a"[..] && k <= &b"b"[..],
         2 => k > &b"a"[..],
-        _ => k < &b"b"[..],
+        3 => k < &b"b"[..],
+        // search(Subsequence("b")).gt("")
+        _ => k > &b""[..] && k.contains(&b'b'),
+    }
+}
+
+fn subseq() -> &'static fst::automaton::Subsequence<'static> {
+    static A: OnceLock<fst::automaton::Subsequence<'static>> = OnceLock::new();
+    A.get_or_init(|| fst::automaton::Subsequence::new("b"))
+}
+
+/// A stream slot: a plain range stream or an automaton search.
+enum Slot<'f> {
+    Plain(fst::raw::Stream<'f>),
+    Search(fst::raw::Stream<'f, &'static fst::automaton::Subsequence<'static>>),
+}
+
+impl<'f> Slot<'f> {
+    fn next_owned(&mut self) -> Option<Kv> {
+        match self {
+            Slot::Plain(s) => s.next().map(|(k, o)| (k.to_vec(), o.value())),
+            Slot::Search(s) => s.next().map(|(k, o)| (k.to_vec(), o.value())),
+        }
     }
 }
 
@@ -114,7 +142,8 @@ pub fn run_seq(seq: &[Op]) -> Result<u64, (Class, String)> {
     while i < seq.len() {
         let j = i + seq[i..].iter().position(|o| matches!(o, Op::MapData(_) | Op::CloneFrom(_))).unwrap_or(seq.len() - i);
         {
-            let mut slots: [Option<fst::raw::Stream<'_>>; 2] = [None, None];
+            let mut slots: [Option<Slot<'_>>; 2] = [None, None];
+            let mut searching = [false, false];
             let mut model: [Option<(Vec<Kv>, usize)>; 2] = [None, None];
             for (step, op) in seq[i..j].iter().enumerate() {
                 n += 1;
@@ -135,23 +164,28 @@ pub fn run_seq(seq: &[Op]) -> Result<u64, (Class, String)> {
                         slots[hu] = None;
                         let f = &h[hu];
                         slots[hu] = Some(match b {
-                            0 => f.stream(),
-                            1 => f.range().ge("a").le("b").into_stream(),
-                            2 => f.range().gt("a").into_stream(),
-                            _ => f.range().lt("b").into_stream(),
+                            0 => Slot::Plain(f.stream()),
+                            1 => Slot::Plain(f.range().ge("a").le("b").into_stream()),
+                            2 => Slot::Plain(f.range().gt("a").into_stream()),
+                            3 => Slot::Plain(f.range().lt("b").into_stream()),
+                            _ => Slot::Search(f.search(subseq()).gt("").into_stream()),
                         });
+                        searching[hu] = b == 4;
                         model[hu] = Some((cs[content[hu]].0.iter().filter(|kv| in_bounds(&kv.0, b)).cloned().collect(), 0));
                     }
                     Op::Next(hh) => {
                         let hu = hh as usize;
                         if let (Some(s), Some((items, pos))) = (slots[hu].as_mut(), model[hu].as_mut()) {
-                            let got = s.next().map(|(k, o)| (k.to_vec(), o.value()));
+                            if searching[hu] {
+                                CURRENT.with(|c| c.set(Class::Search));
+                            }
+                            let got = s.next_owned();
                             let want = items.get(*pos).cloned();
                             if *pos < items.len() {
                                 *pos += 1;
                             }
                             if got != want {
-                                return Err((Class::Stream, format!("{}: next() = {:?}, expected {:?} (stream over {} )", at(), got.map(|g| (key_str(&g.0), g.1)), want.map(|g| (key_str(&g.0), g.1)), kvs_str(items))));
+                                return Err((if searching[hu] { Class::Search } else { Class::Stream }, format!("{}: next() = {:?}, expected {:?} (stream over {} )", at(), got.map(|g| (key_str(&g.0), g.1)), want.map(|g| (key_str(&g.0), g.1)), kvs_str(items))));
                             }
                         }
                     }
@@ -220,7 +254,7 @@ fn guarded(seq: &[Op]) -> Result<u64, (Class, String)> {
     match guard(|| run_seq(seq)) {
         Ok(r) => r,
         // a panic is attributed to the operation that was running
-        Err(p) => Err((CURRENT.with(|c| c.get()), format!("{:?}: {}", seq, p))),
+        Err(p) => Err((CURRENT.with(|c| c.get()), format!("PANIC {:?}: {}", seq, p))),
     }
 }
 
@@ -304,7 +338,7 @@ pub fn replay(case: &Value) -> Option<Result<String, String>> {
     Some(guarded(&seq).map(|n| format!("{} reader operations agree with the model", n)).map_err(|e| e.1))
 }
 
-pub const RULE: &str = " reader operation sequences: every sequence of at most D calls (quick D=4, thorough D=5) over a 30-operation alphabet on two reader handles (get/contains_key of 4 probes, open one of 4 bounded streams, next, drop, map_data to the other map's bytes, clone_from the other handle, verify, get_key of 2 values), every answer compared with a reference model; a wrong answer is reported by the check of the operation's own property.";
+pub const RULE: &str = " reader operation sequences: every sequence of at most D calls (quick D=4, thorough D=5) over a 32-operation alphabet on two reader handles (get/contains_key of 4 probes, open one of 4 bounded streams or a bounded Subsequence search, next, drop, map_data to the other map's bytes, clone_from the other handle, verify, get_key of 2 values), every answer compared with a reference model; a wrong answer is reported by the check of the operation's own property.";
 
 /// Adds the exploration to a plan; only failures of class `mine` are reported.
 pub fn add_units(p: &mut Plan, mine: Class, depth: usize) {
@@ -331,7 +365,7 @@ pub fn add_units(p: &mut Plan, mine: Class, depth: usize) {
                         st.transitions += n;
                     }
                     Err((class, msg)) => {
-                        if class == mine {
+                        if class == mine || (mine == Class::Panics && msg.starts_with("PANIC")) {
                             rep.violation(format!("reader ops {:?}", seq), msg, json!({"reader_ops": ops_json(seq)}));
                             reported += 1;
                         }
